@@ -53,8 +53,9 @@ def validate(rep, recs, enforced, what):
 
 def bic_family(rep, tier, enforced):
     rng = random.Random(common.seed() * 7003 + 16)
-    jobs = [(n, rng.randint(1, 4), rng.randint(2, 40), rng.randrange(1 << 30))
-            for n in ([1, 2, 5, 12, 40, 80, 120] * (2 if tier == "quick" else 30))]
+    jobs = [(n, rng.randint(1, 4), rng.randint(2, 40), rng.randrange(1 << 30), fam)
+            for fam in ("bic", "bic_over", "bic_under")
+            for n in ([1, 2, 5, 12, 40, 80, 120] * (1 if tier == "quick" else 10))]
     recs = common.pmap_chunked(drv_metrics.bic_job, jobs, chunk=4)
     return validate(rep, recs, enforced, "bic")
 
